@@ -10,7 +10,7 @@ ASSUMPTIONS = ["the protocol model has one level of child VM (a root VM and the 
                "Abort called before Run has reset the flag (Run not yet entered) is outside the property for VM.Run and is not scheduled, except through Eval.Run where the property covers it"]
 
 MODELLED = ["root", "child-loop", "child-ret"]
-IMPL_ONLY = ["nested-loop"]
+IMPL_ONLY = ["nested-loop", "nopool-loop", "nopool-ret"]
 EVAL = ["eval-root", "eval-child"]
 
 def parse_outcome(r):
@@ -63,7 +63,7 @@ def run(rep, br, proofs, rng, tier):
             if p2 == "-": cases.append(mk_case("%s.%d" % (s, k), "abort09", s, p1, str(occ), p2))
     nfree = 60 if tier == "quick" else 3000
     for k in range(nfree):
-        s = rng.choice(["root", "child-loop", "child-ret", "nested-loop"])
+        s = rng.choice(["root", "child-loop", "child-ret", "nested-loop", "nopool-loop", "nopool-ret"])
         cases.append(mk_case("free.%d" % k, "abort09", s, "delay", str(rng.choice([0, 1, 2, 5, 10, 20, 50, 100, 200, 500, rng.randrange(1000)])), "-"))
     impl, err = vlib.run_impl([c["line"] for c in cases], timeout=3000)
     mcases = [mk_case(c["id"], "abort09", "fixed", *c["args"]) for c in cases if c["args"][0] in MODELLED and c["args"][1] != "delay"]
@@ -102,7 +102,7 @@ def run(rep, br, proofs, rng, tier):
             rep.violation({"property": "C09", "kind": "correspondence", "why": why, "case": line}, found=False)
     rep.coverage.update({
         "evaluations": len(cases) + len(mcases) + len(ocases), "distinct_nontrivial": stats["aborted"],
-        "rule": "every placement of Abort's two actions (flag store, abort of registered children) against the protocol points of a run (Run entry/reset, script running, Invoker acquire / registered / aborted-check, child Run entry/reset, child running, second invocation on the same child, after the callback) for scripts that loop forever in the root VM, in a child VM, after a callback and in a nested child; context cancellation at every point of Eval.Run including before Run's reset; free-running aborts at random delays; each schedule forced through the verif hooks, Run must return aborted within 1.5 s; modelled schedules compared with the Coq protocol model; non-trivial = schedules on which Run returned aborted",
+        "rule": "every placement of Abort's two actions (flag store, abort of registered children) against the protocol points of a run (Run entry/reset, script running, Invoker acquire / registered / aborted-check, child Run entry/reset, child running, second invocation on the same child, after the callback) for scripts that loop forever in the root VM, in a pooled child VM (strings.Map), in a child VM kept by an Invoker without Acquire across three invocations, after a callback and in a nested child; context cancellation at every point of Eval.Run including before Run's reset; free-running aborts at random delays; each schedule forced through the verif hooks, Run must return aborted within 1.5 s; modelled schedules compared with the Coq protocol model; non-trivial = schedules on which Run returned aborted",
         "samples": [cases[0]["line"], cases[len(cases)//2]["line"], cases[-1]["line"]],
         "stats": stats, "traces": traces, "disagreements": len(dis), "oracle_failures": len(fails)})
 
